@@ -293,7 +293,7 @@ def kind_profiles(n, seed, rich):
     if n == 1:
         return list(KINDS_ALL)
     if n == 2:
-        return [a + b for a in KINDS_ALL for b in KINDS_ALL] if rich else [a + b for a in 'LWRD' for b in 'LPRO']
+        return [a + b for a in KINDS_ALL for b in KINDS_ALL] if rich else [a + b for a in 'LWRD' for b in 'LPRO'] + ['Rr', 'lU', 'QW']
     out.append('R' * n)
     for i in range(n):
         for k in ('R', 'W', 'Q') if not rich else 'PWODRlQUr':
@@ -302,6 +302,7 @@ def kind_profiles(n, seed, rich):
     out.append(''.join('RL'[i % 2] for i in range(n)))
     out.append(''.join('LPWD'[(i + seed) % 4] for i in range(n)))
     out.append(''.join('RrQO'[(i + seed) % 4] for i in range(n)))
+    out.append(('Rr' + 'L' * n)[:n])
     if rich:
         out.append(''.join('DRLO'[(i + seed) % 4] for i in range(n)))
         out.append(''.join('WWPl'[(i + seed) % 4] for i in range(n)))
@@ -318,9 +319,10 @@ def ident_profiles(n, rich):
     out = [asc, asc[::-1]]
     if n >= 2:
         out.append(''.join(str(i % 2) for i in range(n)))     # repetition 0101
+    if n >= 3:
+        out.append(''.join(str(i // 2) for i in range(n)))    # 0011
     if rich and n >= 3:
         out.append('0' * n)
-        out.append(''.join(str(i // 2) for i in range(n)))    # 0011
     return out
 
 
@@ -351,9 +353,9 @@ def sat_jobs(tier, seed, for_extract=False):
         t6 = trees(6)
         groups.append(('n6-third', [[e, 'LLLLLL', '012345', 'F', 5, 0, 1] if not for_extract else [e, 'LLLLLL', '012345', 'F'] for e in t6[seed % 3::3]], 6, 5, 30))
     else:
-        add('n3', 3, kind_profiles(3, seed, False), ident_profiles(3, False), 'FM', 3, 1, 1, 3)
+        add('n3', 3, kind_profiles(3, seed, False), ident_profiles(3, False), 'FM', 3, 0, 1, 3)
         add('n3-all-orders', 3, ['LLL', 'LRL', 'RWL'], ['012', '010'], 'M', 3, 0, 0, 3)
-        add('n3-big-universe', 3, ['LLL', 'LPW', 'RLD', 'OlP'], ['012', '011'], 'M', 2, 1, 0, 3)
+        add('n3-big-universe', 3, ['LLL', 'LPW', 'RLD', 'OlP', 'QWL', 'RrL', 'UlO', 'WQP'], ['012', '011', '001'], 'M', 2, 1, 0, 3)
         add('n4', 4, ['LLLL', 'RRRR', 'LRLR', 'RLLL', 'LLLR', 'LWPD', 'QOrR'], ['0123', '3210', '0101'], 'F', 3, 0, 1, 3)
         add('n5', 5, ['LLLLL'], ['01234', '01201'], 'F', 4, 0, 1, 5)
     return groups
